@@ -170,6 +170,9 @@ func (s *scripted) Forward(req []byte) ([]byte, error) {
 	if len(req) > 0 && req[0] == 0xFE {
 		return nil, errFail
 	}
+	if len(req) > 0 && req[0] == 0xFC { // the underlying agent hangs up without answering
+		return nil, io.EOF
+	}
 	if len(req) > 0 && req[0] == 0xFD { // the reply is the rest of the request, verbatim
 		return append([]byte{}, req[1:]...), nil
 	}
@@ -435,7 +438,7 @@ func genBody(g *hx.Gen) []byte {
 		c := []byte{22, 23, 13, 17, 25, 18, 19, 1, 11}[g.Intn(9)]
 		return append([]byte{c}, g.Bytes(g.Intn(30))...)
 	case 20: // unknown codes are forwarded raw
-		return append([]byte{byte(g.Pick([]string{"\x14", "\x15", "\x1a", "\x1b", "\xfe", "\x00", "\xff", "\x28"})[0])}, g.Bytes(g.Intn(10))...)
+		return append([]byte{byte(g.Pick([]string{"\x14", "\x15", "\x1a", "\x1b", "\xfe", "\xfc", "\xfc", "\x00", "\xff", "\x28"})[0])}, g.Bytes(g.Intn(10))...)
 	case 21:
 		return append([]byte{27}, sshString([]byte("ext@example.com"))...)
 	default:
@@ -471,6 +474,14 @@ func genServe(g *hx.Gen, out *hx.Out) {
 		emit(hdr[:])
 		emit(append(hdr[:], 11))
 		emit(append(frame([]byte{11}), hdr[:]...))
+	}
+	// a forwarded request the underlying agent fails (0xFE) or hangs up on (0xFC), followed by
+	// further requests of every kind
+	for _, c := range []byte{0xFE, 0xFC} {
+		for _, next := range [][]byte{{32}, {11}, {35, 11}, {200, 1, 2}, {c}} {
+			emit(append(frame([]byte{c, 1, 2, 3}), frame(next)...))
+			emit(append(append(frame([]byte{32}), frame([]byte{c})...), frame(next)...))
+		}
 	}
 	for i := 0; i < *hx.Count; i++ {
 		var s []byte
